@@ -35,19 +35,24 @@ def crender(node, style, col, ic, N=0):
         """-> (lines, column of the closing brace or None).  lead = text to put in front of head ('} ')"""
         first = (lead or "") + head
         fc = c if lead is None else c + N          # a line starting with '}' starts at the brace column
+        own_line_brace = style == "allman"
+        if body[0] == "bare" and body[1][0] == "block":
+            # an unbraced body that is itself a block IS the braced body (the input merely wrote the brace on its own, deeper, line)
+            body = ("braced", body[1][1])
+            own_line_brace = True
         if body[0] == "bare":
             # indent_else_if = false (default, documented): an 'if' that is the unbraced body of an 'else' is treated as
             # 'else if' for indenting, i.e. it stays at the column of the 'else'
             deeper = 0 if (head == "else" and body[1][0] in ("if", "ifelse", "chain")) else ic
-            return [pad(fc) + first] + crender(body[1], style, c + deeper, ic, N), None
+            return [pad(fc) + first] + crender(body[1], style, c + deeper, ic, N), None, False
         bc = c + N
-        if style != "allman":
+        if not own_line_brace:
             out = [pad(fc) + first + " {"]
         else:
             out = [pad(fc) + first, pad(bc) + "{"]
         for x in body[1]:
             out += crender(x, style, bc + ic, ic, N)
-        return out + [pad(bc) + "}"], bc
+        return out + [pad(bc) + "}"], bc, not own_line_brace
 
     if k in ("expr", "decl"):
         return [pad(col) + node[1]]
@@ -67,20 +72,18 @@ def crender(node, style, col, ic, N=0):
             heads = ["if (a)"] + ["else if (b)"] * (len(arms) - 1)
             if node[1][-1] == "else":
                 heads[-1] = "else"
-        out, prev_bc = [], None
+        out, prev_join = [], False
         for h, b in zip(heads, arms):
-            if out and prev_bc is not None and style != "allman":
-                closing = out.pop()
-                part, prev_bc2 = head_body(h, b, col, lead="} ")
-                out += part
-                prev_bc = prev_bc2
+            if out and prev_join:
+                out.pop()                                       # the closing brace moves onto the line of the next head
+                part, bc_, prev_join = head_body(h, b, col, lead="} ")
             else:
-                part, prev_bc = head_body(h, b, col)
-                out += part
+                part, bc_, prev_join = head_body(h, b, col)
+            out += part
         return out
     if k == "do":
-        lines, bc = head_body("do", node[1], col)
-        if bc is not None and style != "allman":
+        lines, bc, joinable = head_body("do", node[1], col)
+        if joinable:
             lines[-1] += " while (a);"
         else:
             lines.append(pad(col) + "while (a);")
@@ -301,9 +304,56 @@ def variants_of(node, style, java, thorough2=False):
     return out
 
 
+def ends_in_open_if(n):
+    """does the statement end in an else-less 'if' that is reached through unbraced bodies only?"""
+    k = n[0]
+    if k == "if":
+        return True          # an else-less if takes a following else whether or not its own body is braced
+    if k in ("while", "for", "forx"):
+        return n[1][0] == "bare" and ends_in_open_if(n[1][1])
+    if k == "ifelse":
+        return n[2][0] == "bare" and ends_in_open_if(n[2][1])
+    if k == "chain":
+        arms = [b for b in n[1] if b != "else"]
+        if n[1][-1] != "else":
+            return True
+        return arms[-1][0] == "bare" and ends_in_open_if(arms[-1][1])
+    return False
+
+
+def misparsed(n):
+    """An AST whose TEXT means something else: an unbraced then-branch that ends in an open 'if' captures the 'else' that the AST
+    attaches to the outer 'if' (dangling else).  Such shapes are legitimate inputs for the compile-equivalence checks, but the
+    closed form below follows the AST, so they are not judged here."""
+    k = n[0]
+    if k == "ifelse" and n[1][0] == "bare" and ends_in_open_if(n[1][1]):
+        return True
+    if k == "chain":
+        arms = [b for b in n[1] if b != "else"]
+        for b in arms[:-1]:
+            if b[0] == "bare" and ends_in_open_if(b[1]):
+                return True
+    for x in n[1:]:
+        if isinstance(x, tuple) and x and x[0] == "bare" and misparsed(x[1]):
+            return True
+        if isinstance(x, tuple) and x and x[0] == "braced" and any(misparsed(y) for y in x[1]):
+            return True
+        if isinstance(x, list):
+            for y in x:
+                if isinstance(y, tuple) and y and y[0] in ("bare", "braced"):
+                    if (y[0] == "bare" and misparsed(y[1])) or (y[0] == "braced" and any(misparsed(z) for z in y[1])):
+                        return True
+                elif isinstance(y, tuple) and len(y) == 2 and isinstance(y[1], list):
+                    if any(isinstance(z, tuple) and misparsed(z) for z in y[1]):
+                        return True
+                elif isinstance(y, tuple) and y and isinstance(y[0], str) and misparsed(y):
+                    return True
+    return False
+
+
 def check(ctx):
     quick = ctx.tier == "quick"
-    shapes = [s for s in cgen.stmts(1 if quick else 2, 2) if s[0] not in ("decl", "expr", "empty", "ret")]
+    shapes = [s for s in cgen.stmts(1 if quick else 2, 2) if s[0] not in ("decl", "expr", "empty", "ret") and not misparsed(s)]
     if quick:
         ics, iwts, tss = ("2", "3", "4", "8"), ("0", "2"), ("4", "8")
     else:
@@ -316,29 +366,31 @@ def check(ctx):
         prod.append(dict(prod[-1], output_tab_size="4"))
     jobs = []
     nfun = 0
+    d1 = set(cgen.render_one(x) for x in cgen.stmts(1, 2))
+    small = [{"indent_columns": a, "indent_with_tabs": b, "output_tab_size": c} for a in ("2", "3", "4", "8") for b in ("0", "2") for c in ("4", "8")]
     for lang in ("C", "CPP", "JAVA"):
         java = lang == "JAVA"
-        items = []
+        items, items2 = [], []          # depth-1 shapes (full configuration product) / depth-2 shapes (16-configuration product)
         for si, node in enumerate(shapes):
+            depth1 = cgen.render_one(node) in d1
             if lang != "C" and (quick and si % 4 or not quick and si % 3):
                 continue
-            if not quick and len(cgen.render_one(node)) > 120 and si % 5:
-                continue          # depth-2 shapes: every shape in uniform layouts, every fifth with all deviations
             for style in ("kr", "allman"):
-                vs = variants_of(node, style, java, thorough2=(not quick and len(cgen.render_one(node)) < 60))
-                if not quick and len(cgen.render_one(node)) > 120:
-                    pass
+                vs = variants_of(node, style, java, thorough2=(not quick and depth1 and len(cgen.render_one(node)) < 60))
                 for var, lines, cm in vs:
                     if quick and lang != "C" and not var.startswith(("uniform", "comment:")):
                         continue
+                    if not depth1 and not var.startswith(("uniform", "comment")) and si % 5:
+                        continue          # depth-2 shapes: all in uniform / comment layouts, every fifth with every 1-deviation
                     nm = "t%d" % nfun; nfun += 1
-                    items.append((nm, node, style, var, [l.replace("@", nm) for l in lines], cm))
+                    (items if depth1 else items2).append((nm, node, style, var, [l.replace("@", nm) for l in lines], cm))
         per = 30
-        for i in range(0, len(items), per):
-            pack = items[i:i + per]
-            # spread the configuration product over the packs of equal content: each pack sees every configuration
-            for c0 in range(0, len(prod), 12):
-                jobs.append((lang, pack, prod[c0:c0 + 12], True))
+        for its, pr in ((items, prod), (items2, small)):
+            for i in range(0, len(its), per):
+                pack = its[i:i + per]
+                # each pack sees every configuration of its product
+                for c0 in range(0, len(pr), 12):
+                    jobs.append((lang, pack, pr[c0:c0 + 12], True))
     # option variants: differential clause
     djobs = []
     opt_variants = [{"indent_braces": "true"}, {"indent_switch_case": "4"}, {"indent_case_brace": "4"}, {"indent_braces_no_func": "true", "indent_braces": "true"},
@@ -347,7 +399,8 @@ def check(ctx):
         if quick and si % 3:
             continue
         for style in ("kr", "allman"):
-            vs = [(v, [l.replace("@", "t0") for l in ls]) for v, ls, cm in variants_of(node, style, False) if cm is None and (v.startswith("uniform") or not quick)]
+            full = not quick and cgen.render_one(node) in d1        # every 1-deviation for the depth-1 shapes, uniform layouts otherwise
+            vs = [(v, [l.replace("@", "t0") for l in ls]) for v, ls, cm in variants_of(node, style, False) if cm is None and (v.startswith("uniform") or full)]
             cfgs = [dict(o, indent_columns="4", indent_with_tabs="0") for o in opt_variants]
             djobs.append(("C", node, style, vs, cfgs))
     ctx.log("closed-form jobs: %d (functions %d, configurations %d), differential jobs: %d" % (len(jobs), nfun, len(prod), len(djobs)))
